@@ -49,6 +49,7 @@ def run(chk):
     n0 = [0]
     items.append(("internal", lambda: (n0.__setitem__(0, len(chk.obs)), L1m.internal_contracts(l1))))
     items.append(("completeness", lambda: L1m.completeness(l1)))
+    items.append(("selector primitives", lambda: L1m.selector_contracts(l1)))
     run_kernels(chk, items)
     by = lambda pre: [o for o in chk.obs if o.name.startswith(pre)]
     L1m.settle(chk, by("Point.Add["), lambda: ptreplay.battery_binary("P.Add", chk.seed, lambda p, q: ref.ed_add(p, q)), "Point.Add")
